@@ -121,12 +121,24 @@ func (s *Server) cmdInsert(c *Cmd) bson.D {
 	if !ok {
 		return errReplyOf(errFailedToParse("insert needs a documents array"))
 	}
+	n, werrs, _ := s.insertRange(c, docs, 0, len(docs), isOrdered(c.Body))
+	return insertReply(n, werrs)
+}
+
+func insertReply(n int, werrs bson.A) bson.D {
+	reply := bson.D{{Key: "n", Value: int32(n)}}
+	if len(werrs) > 0 {
+		reply = append(reply, bson.E{Key: "writeErrors", Value: werrs})
+	}
+	return okReply(reply...)
+}
+
+// insertRange inserts docs[from:to] one by one (as a server without a multi-document transaction does);
+// stop = an ordered insert met a write error and must not continue.
+func (s *Server) insertRange(c *Cmd, docs []bson.D, from, to int, ordered bool) (n int, werrs bson.A, stop bool) {
 	col := s.coll(c.NS, true)
-	ordered := isOrdered(c.Body)
-	n := 0
-	var werrs bson.A
-	for i, in := range docs {
-		doc := cloneDoc(in)
+	for i := from; i < to; i++ {
+		doc := cloneDoc(docs[i])
 		id, has := lookup(doc, "_id")
 		if !has {
 			id = primitive.NewObjectID()
@@ -134,14 +146,14 @@ func (s *Server) cmdInsert(c *Cmd) bson.D {
 		} else if _, isArr := id.(bson.A); isArr {
 			werrs = append(werrs, writeError(i, errBadValue("The '_id' value cannot be of type array")))
 			if ordered {
-				break
+				return n, werrs, true
 			}
 			continue
 		}
 		if col.findByID(id) >= 0 {
 			werrs = append(werrs, writeError(i, dupKeyError(c.NS, id)))
 			if ordered {
-				break
+				return n, werrs, true
 			}
 			continue
 		}
@@ -149,11 +161,7 @@ func (s *Server) cmdInsert(c *Cmd) bson.D {
 		s.record(c, "insert", doc)
 		n++
 	}
-	reply := bson.D{{Key: "n", Value: int32(n)}}
-	if len(werrs) > 0 {
-		reply = append(reply, bson.E{Key: "writeErrors", Value: werrs})
-	}
-	return okReply(reply...)
+	return n, werrs, false
 }
 
 // ---- find -------------------------------------------------------------------------------------
